@@ -294,9 +294,11 @@ def run(ctx):
     n, mal = (300, 100) if thorough else (60, 20)
     rc, out = vlib.sh([fbin, "-list"], timeout=60)
     todo = [f["name"] for f in json.loads(out.strip().splitlines()[-1])]
+    formats_load_induced = 0
     while todo:
         rc, out = vlib.sh([fbin, "-outdir", c03dir, "-seed", str(ctx.seed), "-n", str(n), "-mal", str(mal), "-formats", ",".join(todo)], timeout=600)
         ran = set(re.findall(r"^format=(\w+) cases=", out, re.M))
+        formats_load_induced += sum(int(k) for k in re.findall(r"^load_induced_timeouts format=\w+ n=(\d+)", out, re.M))
         if rc == 3:
             # an Extract call exceeded the generator harness' own deadline: that is a hang of a built-in extractor on a concrete file
             m = re.search(r"^timeout format=(\w+) case=(\d+)", out, re.M)
@@ -451,6 +453,9 @@ def run(ctx):
                                "seed_files": fz["seed_files"], "totals": tot},
         "systematic_pass": sysp,
         "result_validation": fz.get("result_validation"),
+        "load_induced_timeouts": {"fuzzextract": fz.get("load_induced_timeouts", 0), "formats_harness": formats_load_induced,
+                                  "rule": fz.get("timeout_rule", "") + "; formats harness (one call at a time in its own process): hang only if the process burned > 2.4 s CPU "
+                                          "since the call started or the call is still running after 20 s"},
         "fuzz": {"extractors_fuzzed": fz["extractors_fuzzed"], "skipped_extractors": fz["skipped_extractors"], "budget_s": budget,
                  "timeout_s": timeout_s, "memlimit_mib": 4096, "workers": 8, "calls_per_second": fz["calls_per_second"],
                  "wall_s": fz["wall_s"], "worker_restarts": fz["worker_restarts"],
